@@ -1152,6 +1152,7 @@ int Interpret::interpPipe() {
 
     bool inComment = false;
     bool inString = false;
+    bool inStringEscape = false;
     bool inQuotedSymbol = false;
 
     bool done  = false;
@@ -1203,6 +1204,15 @@ int Interpret::interpPipe() {
             }
             assert (not inComment and not inQuotedSymbol);
             if (inString) {
+                // the lexer reads \" and \\ inside a string literal as one escaped character
+                if (inStringEscape) {
+                    inStringEscape = false;
+                    continue;
+                }
+                if (c == '\\') {
+                    inStringEscape = true;
+                    continue;
+                }
                 inString = (c != '\"');
             } else if (c == '\"') {
                 inString = true;
